@@ -45,6 +45,13 @@ from values import is_z3 as _is_z3
 TOLQ = z3.RealVal(_Fr(0.001))  # the exact value of the f64 constant 1e-3
 
 
+EPS8Q = z3.RealVal(_Fr(1e-8))  # the exact value of the f64 default epsilon of utils::almost_eq
+
+
+def eps8(x=None):
+    return EPS8Q if (x is None or _is_z3(x)) else 1e-8
+
+
 def tol(x=None):
     """the code's TOL: exact rational in symbolic mode, the f64 itself natively"""
     return TOLQ if (x is None or _is_z3(x)) else 0.001
